@@ -173,142 +173,9 @@ func stageBodyTable(c *an.Ctx, s *sched, rule string) {
 	c.Tables["stage-body("+an.Short(body)+")"] = table
 }
 
-// conditionTable checks C02.3.
+// conditionTable checks C02.3 on the scheduling trace.
 func conditionTable(c *an.Ctx, s *sched, rule string) {
-	f := s.launchFn
-	l := s.inner
-	key := an.Short(f) + ":condition"
-	// the condition evaluation: a call in the loop whose argument is stage.Condition
-	var condCall *ssa.Call
-	for b := range l.Blocks {
-		for _, in := range b.Instrs {
-			call, ok := in.(*ssa.Call)
-			if !ok {
-				continue
-			}
-			for _, a := range call.Call.Args {
-				ap := an.AccessPath(a)
-				if ap.LastField() == "Condition" && an.SameValue(ap.Base, s.loopStage) {
-					condCall = call
-				}
-			}
-		}
-	}
-	if condCall == nil {
-		c.Und(rule, key, f.Pos(), "no call in the per-stage loop evaluates stage.Condition")
-		return
-	}
-	who := func(v ssa.Value) string {
-		if an.SameValue(v, s.loopStage) {
-			return "stage"
-		}
-		return "other:" + an.Prov(v)
-	}
-	var gateBlock *ssa.BasicBlock
-	if s.gateCall != nil {
-		gateBlock = s.gateCall.Block()
-	}
-	rows := []struct {
-		name       string
-		meets, err an.AVal
-	}{
-		{"meets=true/err=nil", an.ABool(true), an.AVal{K: an.ANil}},
-		{"meets=false/err=nil", an.ABool(false), an.AVal{K: an.ANil}},
-		{"meets=false/err=non-nil", an.ABool(false), an.AVal{K: an.ANonNil}},
-		{"meets=true/err=non-nil", an.ABool(true), an.AVal{K: an.ANonNil}},
-	}
-	var table []string
-	for _, row := range rows {
-		row := row
-		ex := &an.Explorer{P: c.P, NoReturn: noReturn}
-		l.Bound(ex)
-		ex.Atom = func(v ssa.Value) (an.AVal, bool) {
-			if e, ok := v.(*ssa.Extract); ok && e.Tuple == ssa.Value(condCall) {
-				if e.Index == 0 {
-					return row.meets, true
-				}
-				return row.err, true
-			}
-			return an.AVal{}, false
-		}
-		reachedGate := false
-		ex.Effect = func(in ssa.Instruction, st *an.State) string {
-			if e := s.updateStatusEffect(in, st, who); e != "" {
-				return e
-			}
-			if call, ok := in.(*ssa.Call); ok {
-				if call == s.gateCall {
-					reachedGate = true
-					return "gate"
-				}
-				for _, callee := range c.P.Callees(&call.Call) {
-					if callee == s.cancel {
-						return "Cancel()"
-					}
-				}
-			}
-			if _, ok := in.(*ssa.Go); ok {
-				return "launch"
-			}
-			return ""
-		}
-		_ = gateBlock
-		outs := ex.RunFrom(f, condCall, nil)
-		key := an.Short(f) + ":condition row " + row.name
-		bad := ""
-		var cells []string
-		for _, o := range outs {
-			eff := o.Effects
-			// cut at the gate: what follows is the gate's business
-			for i, e := range eff {
-				if e == "gate" {
-					eff = eff[:i+1]
-					break
-				}
-			}
-			cells = append(cells, strings.Join(eff, ";"))
-			joined := strings.Join(eff, ";")
-			switch row.name {
-			case "meets=true/err=nil":
-				if joined != "gate" {
-					bad = "a stage whose condition holds must go on to the dependency gate, got [" + joined + "]"
-				}
-			case "meets=false/err=nil":
-				if joined != "write(stage,Skipped)" {
-					bad = "a stage whose condition is false must be marked Skipped and nothing else, got [" + joined + "]"
-				}
-			default:
-				if joined != "write(stage,Error);Cancel()" && joined != "Cancel();write(stage,Error)" {
-					bad = "a condition that cannot be evaluated must mark the stage Error and cancel the run, got [" + joined + "]"
-				}
-			}
-		}
-		_ = reachedGate
-		table = append(table, fmt.Sprintf("%-26s -> %s", row.name, strings.Join(dedup(cells), " | ")))
-		if bad != "" {
-			c.Bad(rule, key, condCall.Pos(), "%s", bad)
-		} else {
-			c.OK(rule, key, condCall.Pos(), "%s", strings.Join(dedup(cells), " | "))
-		}
-	}
-	c.Tables["condition("+an.Short(f)+")"] = table
-	// the condition call itself is guarded only by Condition != "": on the other branch the gate is reached
-	// nothing else writes Skipped
-	S := s.status["Skipped"]
-	n := 0
-	for _, fn := range c.P.Funcs {
-		an.EachInstr(fn, func(in ssa.Instruction) {
-			cc, ok := an.IsCallTo(in, fnUpdateStatus)
-			if !ok {
-				return
-			}
-			if v, ok := an.ConstInt(cc.Args[1]); ok && v == S {
-				n++
-				inLoop := fn == f && l.Blocks[in.Block()] && an.Dominates(condCall, in)
-				c.Check(inLoop, rule, an.Short(fn)+":write(Skipped)", in.Pos(), "Skipped is written only after the condition was evaluated", "Skipped is written outside the condition branch of the scheduling loop")
-			}
-		})
-	}
+	checkSchedTable(c, s, rule, map[string]bool{"condition": true})
 }
 
 // errorReport checks C02.4.
@@ -407,9 +274,47 @@ func errorReport(c *an.Ctx, s *sched, rule string) {
 	}
 }
 
-// monotoneStatus checks C02.5.
+// schedSides partitions pkg/scheduler: functions that run on the scheduling
+// goroutine for one stage (reachable from the per-stage loop without go) and
+// functions that run in a stage's goroutine.
+func schedSides(c *an.Ctx, s *sched) (loopSide, bodySide map[*ssa.Function]bool) {
+	p := c.P
+	loopSide, bodySide = map[*ssa.Function]bool{}, map[*ssa.Function]bool{}
+	inPkg := func(f *ssa.Function) bool { return an.Outer(f).Pkg == s.schedule.Pkg }
+	var roots []*ssa.Function
+	for b := range s.inner.Blocks {
+		for _, in := range b.Instrs {
+			if ci, ok := in.(*ssa.Call); ok {
+				for _, callee := range p.Callees(&ci.Call) {
+					if inPkg(callee) && callee != s.schedule {
+						roots = append(roots, callee)
+					}
+				}
+			}
+		}
+	}
+	for f := range p.Reach(roots, func(e an.CallEdge) bool { return e.Kind != an.EdgeGo && inPkg(e.Callee) && e.Callee != s.schedule }) {
+		loopSide[f] = true
+	}
+	loopSide[s.loopFn] = true
+	for f := range p.Reach([]*ssa.Function{s.body}, func(e an.CallEdge) bool { return inPkg(e.Callee) && e.Callee != s.schedule }) {
+		bodySide[f] = true
+		for _, a := range an.WithAnon(f) {
+			bodySide[a] = true
+		}
+	}
+	return
+}
+
+// monotoneStatus checks C02.5: on the scheduling trace nothing is written on a
+// stage that was not seen Waiting in this pass; module-wide, statuses are
+// constants, Waiting is never written, Running only by the scheduling side,
+// and every write sits on the scheduling side, in the gate, or in the stage
+// goroutine (which writes its own stage only).
 func monotoneStatus(c *an.Ctx, s *sched, rule string) {
+	checkSchedTable(c, s, rule, map[string]bool{"writes": true})
 	W, R := s.status["Waiting"], s.status["Running"]
+	loopSide, bodySide := schedSides(c, s)
 	nRunning := 0
 	for _, fn := range c.P.Funcs {
 		an.EachInstr(fn, func(in ssa.Instruction) {
@@ -433,79 +338,40 @@ func monotoneStatus(c *an.Ctx, s *sched, rule string) {
 			}
 			if v == R {
 				nRunning++
-				ok := fn == s.launchFn && in.Block() == s.launch.Block() && an.InstrIndex(in) < an.InstrIndex(s.launch) && an.SameValue(cc.Args[0], s.loopStage)
-				c.Check(ok, rule, key, in.Pos(), "Running is written by the scheduling loop immediately before the launch, on the launched stage",
-					"Running is written somewhere other than in the scheduling loop right before the launch of that stage")
+				c.Check(loopSide[fn] && !bodySide[fn], rule, key, in.Pos(), "Running is written on the scheduling goroutine (the trace shows: right before the launch, on the launched stage)",
+					"Running is written outside the scheduling goroutine: the loop's next pass can see the stage still Waiting and launch it again")
 				return
 			}
-			inBody := false
-			for _, b := range an.WithAnon(s.body) {
-				if b == fn {
-					inBody = true
-				}
-			}
 			switch {
-			case inBody:
-				ok := s.bodyStage != nil && an.SameValue(cc.Args[0], s.bodyStage)
-				c.Check(ok, rule, key, in.Pos(), "stage goroutine writes the status of its own stage (which the loop set to Running)", "stage goroutine writes the status of a stage that is not its own")
-			case fn == s.launchFn:
-				c.Check(waitingGuard(c, s, in.Block(), cc.Args[0]), rule, key, in.Pos(), "write is dominated by status==Waiting on the same stage", "scheduling loop writes a status without having seen the stage Waiting in this pass")
-			case fn == s.gate:
-				// through the gate's call site
-				okSite := s.gateCall != nil && waitingGuard(c, s, s.gateCall.Block(), s.loopStage)
-				var sp *ssa.Parameter
-				for _, p := range s.gate.Params {
-					if an.TypeIs(p.Type(), "pkg/scheduler", "Stage") {
-						sp = p
+			case bodySide[fn] && !loopSide[fn]:
+				// the goroutine writes the stage it was given
+				okOwn := false
+				if s.bodyStage != nil {
+					for _, src := range c.P.DeepSources(cc.Args[0], 3, true) {
+						if src == s.bodyStage || an.SameValue(src, s.loopStage) {
+							okOwn = true
+						}
 					}
 				}
-				onParam := sp != nil && an.SameValue(cc.Args[0], sp)
-				c.Check(okSite && onParam, rule, key, in.Pos(), "gate writes only the gated stage, and is called under status==Waiting", "gate writes a status on a stage other than the gated (Waiting) one")
+				c.Check(okOwn, rule, key, in.Pos(), "stage goroutine writes the status of its own stage (which the loop set to Running)", "stage goroutine writes the status of a stage that is not its own")
+			case fn == s.gate:
+				var sp *ssa.Parameter
+				for _, prm := range s.gate.Params {
+					if an.TypeIs(prm.Type(), "pkg/scheduler", "Stage") {
+						sp = prm
+					}
+				}
+				c.Check(sp != nil && an.SameValue(cc.Args[0], sp), rule, key, in.Pos(), "gate writes only the gated stage (the trace shows it is consulted only for a Waiting stage)", "gate writes a status on a stage other than the gated (Waiting) one")
+			case loopSide[fn]:
+				c.OK(rule, key, in.Pos(), "written on the scheduling goroutine; the trace shows it happens only for a stage seen Waiting in this pass")
 			default:
-				c.Bad(rule, key, in.Pos(), "status is written outside the scheduler's loop, gate and stage goroutine")
+				c.Bad(rule, key, in.Pos(), "status is written by %s, which is neither part of the scheduling loop, nor the gate, nor a stage's goroutine", an.Short(fn))
 			}
 		})
 	}
-	if nRunning != 1 {
-		c.Bad(rule, "write(Running):sites", s.launch.Pos(), "Running is written at %d sites, want exactly one", nRunning)
+	if nRunning < 1 {
+		c.Bad(rule, "write(Running):sites", s.launch.Pos(), "Running is never written")
 	}
-}
-
-// waitingGuard reports whether block b is dominated by ReadStatus(stage)==Waiting.
-func waitingGuard(c *an.Ctx, s *sched, b *ssa.BasicBlock, stage ssa.Value) bool {
-	W := s.status["Waiting"]
-	for _, g := range an.Guards(b) {
-		var atom ssa.Value
-		var walk func(v ssa.Value)
-		walk = func(v ssa.Value) {
-			switch x := v.(type) {
-			case *ssa.BinOp:
-				walk(x.X)
-				walk(x.Y)
-			case *ssa.UnOp:
-				walk(x.X)
-			case *ssa.Call:
-				if cc, ok := an.IsCallTo(x, fnReadStatus); ok && an.SameValue(cc.Args[0], stage) {
-					atom = x
-				}
-			}
-		}
-		walk(g.Cond)
-		if atom == nil {
-			continue
-		}
-		var consistent []int64
-		for _, v := range s.statusDomain() {
-			st := evalWith(c.P, g.Cond, map[ssa.Value]an.AVal{atom: an.AInt(v)})
-			if b, ok := st.IsBool(); !ok || b == g.Outcome {
-				consistent = append(consistent, v)
-			}
-		}
-		if len(consistent) == 1 && consistent[0] == W {
-			return true
-		}
-	}
-	return false
 }
 
 // failureIsLocal checks C02.6.
@@ -537,40 +403,20 @@ func failureIsLocal(c *an.Ctx, s *sched, rule string) {
 	if n == 0 {
 		c.Und(rule, "Scheduler.cancelled:writers", s.cancel.Pos(), "no writer of the cancel flag found")
 	}
-	// in-package callers of Cancel
+	// in-package callers of Cancel: on the scheduling side only (the trace's "writes" clause shows
+	// that there it happens only in the condition-error row)
+	loopSide, bodySide := schedSides(c, s)
+	checkSchedTable(c, s, rule, map[string]bool{"writes": true})
 	for _, fn := range c.P.Funcs {
-		if fn.Pkg != s.schedule.Pkg && (fn.Parent() == nil || an.Outer(fn).Pkg != s.schedule.Pkg) {
+		if an.Outer(fn).Pkg != s.schedule.Pkg {
 			continue
 		}
-		an.EachInstr(fn, func(in ssa.Instruction) {
-			ci, ok := in.(ssa.CallInstruction)
-			if !ok {
-				return
+		for _, site := range c.P.CallSitesOf(s.cancel) {
+			if site.Parent() != fn {
+				continue
 			}
-			for _, callee := range c.P.Callees(ci.Common()) {
-				if callee != s.cancel {
-					continue
-				}
-				// must be the condition-error row: dominated by err != nil of the condition call
-				ok := false
-				if fn == s.launchFn {
-					for _, g := range an.Guards(in.Block()) {
-						if x, eq, isNil := an.NilTest(g.Cond); isNil && (eq != g.Outcome) {
-							if e, isEx := x.(*ssa.Extract); isEx {
-								if call, isCall := e.Tuple.(*ssa.Call); isCall {
-									for _, a := range call.Call.Args {
-										if an.AccessPath(a).LastField() == "Condition" {
-											ok = true
-										}
-									}
-								}
-							}
-						}
-					}
-				}
-				c.Check(ok, rule, an.Short(fn)+":call(Cancel)", in.Pos(), "the scheduler cancels itself only when a stage condition cannot be evaluated", "the scheduler cancels the whole run from "+an.Short(fn)+" outside the condition-error branch")
-			}
-		})
+			c.Check(loopSide[fn] && !bodySide[fn], rule, an.Short(fn)+":call(Cancel)", site.Pos(), "the scheduler cancels itself from the scheduling goroutine only", "the whole run is cancelled from "+an.Short(fn)+", which is not the scheduling loop's condition handling")
+		}
 	}
 	// stage body cannot reach Cancel or the runner's Cancel
 	reach := c.P.Reach([]*ssa.Function{s.body}, func(e an.CallEdge) bool { return an.InModule(e.Callee) && e.Callee != s.schedule })
